@@ -207,9 +207,9 @@ class Localization():
         mask_geo = 0
         mask_calib = 0
         for bs in geo_list:
-            mask_geo += 1 << bs
+            mask_geo |= 1 << bs
         for bs in calib_list:
-            mask_calib += 1 << bs
+            mask_calib |= 1 << bs
 
         pk = CRTPPacket()
         pk.port = CRTPPort.LOCALIZATION
